@@ -18,6 +18,7 @@ structure ScanInv (exts : Array Ext) (nbF i : Nat) (mn mx : List Nat) : Prop whe
   mxle : ∀ f, f < nbF → mx.getD f 0 ≤ i
   first : ∀ f, f < nbF → mn.getD f 0 = exts.size ∨
     (mn.getD f 0 < i ∧ ∃ e, exts[mn.getD f 0]? = some e ∧ e.frame.toNat = f)
+  lastp : ∀ f, f < nbF → mx.getD f 0 = 0 ∨ ∃ e, exts[mx.getD f 0 - 1]? = some e ∧ e.frame.toNat = f
 
 theorem getD_set_eq (l : List Nat) (i v : Nat) (h : i < l.length) : (l.set i v).getD i 0 = v := by
   simp [List.getD, h]
@@ -47,7 +48,7 @@ theorem scanLoop_spec (exts : Array Ext) (nbF : Nat) (hv : ∀ (j : Nat) (e : Ex
     have hve := hv i e hsome
     have hf : f < nbF := by have := hve.fr_lo; have := hve.fr_hi; omega
     apply ih _ (by omega)
-    refine ⟨by simp [hI.lmn], by simp [hI.lmx], ?_, ?_, ?_⟩
+    refine ⟨by simp [hI.lmn], by simp [hI.lmx], ?_, ?_, ?_, ?_⟩
     · intro j e' hj hj' g hg hgn
       by_cases hfg : f = g
       · subst hfg
@@ -83,6 +84,17 @@ theorem scanLoop_spec (exts : Array Ext) (nbF : Nat) (hv : ∀ (j : Nat) (e : Ex
         rcases hI.first g hgn with h | ⟨h1, e', h2, h3⟩
         · exact Or.inl h
         · exact Or.inr ⟨by omega, e', h2, h3⟩
+    · intro g hgn
+      by_cases hfg : f = g
+      · subst hfg
+        rw [getD_set_eq _ _ _ (by rw [hI.lmx]; exact hf)]
+        right
+        have hmxi := hI.mxle f hf
+        have : max (mx.getD f 0) (i + 1) = i + 1 := by omega
+        rw [this]
+        exact ⟨e, by simpa using hsome, rfl⟩
+      · rw [getD_set_ne _ _ _ _ hfg]
+        exact hI.lastp g hgn
   | case5 i mn mx hge =>
     intro hI hle
     have : i = exts.size := by omega
@@ -91,9 +103,10 @@ theorem scanLoop_spec (exts : Array Ext) (nbF : Nat) (hv : ∀ (j : Nat) (e : Ex
 
 theorem scanInv_init (exts : Array Ext) (nbF : Nat) :
     ScanInv exts nbF 0 (List.replicate nbF exts.size) (List.replicate nbF 0) := by
-  refine ⟨by simp, by simp, ?_, ?_, ?_⟩
+  refine ⟨by simp, by simp, ?_, ?_, ?_, ?_⟩
   · intro j e hj; omega
   · intro f hf; simp [List.getD, hf]
+  · intro f hf; left; simp [List.getD, hf]
   · intro f hf; left; simp [List.getD, hf]
 
 /-- `e` at index `i` is the first extension of frame `f` in array order. -/
